@@ -28,14 +28,14 @@ theorem ret_facts (s : NetState) (k : Nat) :
   rw [h1]; rfl
 
 /-- **`write()` at the origin of a route**, single frame of a type 0..64 (no NETWORK_ACK), closed quiet
-    tree network, loss-free, destination `d` another tree node, first hop `j` present and never
-    having received anything: `True`; afterwards (`prepared … .afterRf D`) the first hop holds the
+    tree network, loss-free, destination `d` another tree node, first hop `j` present, the packet its radio accepted last (if any) not carrying this frame's bytes
+    (`NotDupFrame`): `True`; afterwards (`prepared … .afterRf D`) the first hop holds the
     packed frame, the origin listens again, nothing else changed. -/
 theorem write_hop (hc : L3Contracts) (cfg : AddrCfg) (hcfg : CfgOk cfg) (L : LinkCfg) (tree : Nat → List Nat)
     (s : NetState) (d : List Nat) (ty : Int) (msg : Bytes) (j : Nat)
     (hok : NetOk cfg L tree s) (hcur : s.cur < s.nodes.length) (hact : s.active = [s.cur])
     (hsize : s.nodes.length ≤ 100000) (hd : IsNode d) (hxd : tree s.cur ≠ d)
-    (hj : j < s.nodes.length) (htj : tree j = nextHopSpec (tree s.cur) d) (hjl : (s.radioAt j).lastRx = none)
+    (hj : j < s.nodes.length) (htj : tree j = nextHopSpec (tree s.cur) d) (hjl : NotDupFrame (s.radioAt j) (wireCopy (callerFrame (tree s.cur) d s.nextId ty msg)))
     (hquiet : ∀ i, i < s.nodes.length → (s.radioAt i).rxFifo = [])
     (hty : 0 ≤ ty ∧ ty ≤ 64) (hlen : msg.length ≤ MAX_FRAG_SIZE) (hmax : msg.length ≤ s.node.maxMessageLength) :
     ∃ (D : DrvState) (pk A : Bytes) (pid : Nat) (P : List Bytes),
@@ -65,7 +65,7 @@ theorem write_hop (hc : L3Contracts) (cfg : AddrCfg) (hcfg : CfgOk cfg) (L : Lin
     unfold callerFrame
     rw [hnode, hn2]; rfl
   rw [hcf] at hw
-  generalize hcdef : callerFrame x d s.nextId ty msg = c at hw ⊢
+  generalize hcdef : callerFrame x d s.nextId ty msg = c at hw hjl ⊢
   have hct : c.header.msgType = .int (maskInt ty 0xFF) := by rw [← hcdef]; rfl
   have hcm : c.message = msg := by rw [← hcdef]; rfl
   have hprep : (({ s with nextId := (((s.nextId + 1) &&& 0xFFFF) + 1) &&& 0xFFFF } : NetState).setNode
@@ -129,7 +129,7 @@ theorem write_hop (hc : L3Contracts) (cfg : AddrCfg) (hcfg : CfgOk cfg) (L : Lin
       exact (hok.inj i s.cur (by rw [← hs'l]; exact hi) hcur (by rw [← hs'c]; exact hic)).2)
     (by rw [hs'at j hji, hs'rad]; exact hNj)
     (by rw [hs'n]; show pipeAddress s.node.cfg _ _ = _; rw [hnode, hn3]; exact hA1)
-    hA2 hp1 hp5 hA3 (by rw [hs'rad]; exact hjl)
+    hA2 hp1 hp5 hA3 (by rw [hs'rad]; exact hjl.notDup hpk)
     (by
       intro r pid hri hrj
       rw [hs'w]
